@@ -107,9 +107,13 @@ OrderedOk(q, exp0, rows) ==
      /\ SubBag(br, be)
      /\ \A c \in {exp[i][k] : i \in DOMAIN exp} : Cardinality({i \in DOMAIN rows : rows[i][k] = c}) = inwin(c)
 \* SELECT ?g (COUNT( * ) AS ?c) ... GROUP BY ?g  (?g bound in every solution): one row per value of ?g with its count
+\* optional HAVING (COUNT( * ) > n | = n | >= n): only the groups whose count passes
+CountOf(sols, g, key) == Cardinality({j \in DOMAIN sols : sols[j][g] = key})
+HavingOk(q, n) == IF "having" \notin DOMAIN q THEN TRUE
+                  ELSE CASE q.having.f = "gt" -> n > q.having.n [] q.having.f = "eq" -> n = q.having.n [] q.having.f = "ge" -> n >= q.having.n
 GroupOk(D, q, rows) ==
   LET sols == EvalGroup(D, q.where)
-      keys == {sols[i][q.group] : i \in DOMAIN sols}
+      keys == {k \in {sols[i][q.group] : i \in DOMAIN sols} : HavingOk(q, CountOf(sols, q.group, k))}
   IN /\ Len(rows) = Cardinality(keys)
      /\ {rows[i][1] : i \in DOMAIN rows} = keys
      /\ \A i \in DOMAIN rows : rows[i][2] = Cardinality({j \in DOMAIN sols : sols[j][q.group] = rows[i][1]})
